@@ -76,7 +76,14 @@ pub enum Op {
     GitPackRefs { prune: bool },
     Reopen,
     /// C17: another party holds these lock files; `release_after_ms` = a second sim thread removes them later
-    HoldLocks { paths: Vec<String>, release_after_ms: Option<u64> },
+    HoldLocks {
+        paths: Vec<String>,
+        release_after_ms: Option<u64>,
+        /// the holders change while we wait: every `period` ms the lock files are released and immediately re-taken
+        /// (new mtime), for `total` ms; the resource stays locked throughout
+        #[serde(default)]
+        churn_ms: Option<(u64, u64)>,
+    },
     ReleaseLocks,
 }
 #[derive(Clone, Debug, Serialize, Deserialize)]
@@ -601,14 +608,32 @@ fn observe_step(c: &mut Ctx, store: &file::Store, git_dir: &Path, reflog: u8, st
         match observe_git(git_dir, o) {
             Ok(got) => {
                 // git omits dangling symbolic refs; the property text is silent on them, so is the oracle
-                let exp: Vec<(String, Tgt)> = expect_all
-                    .iter()
-                    .filter(|(_, v)| match v {
-                        Tgt::Sym(t) => c.model.contains_key(t),
-                        _ => true,
-                    })
-                    .cloned()
-                    .collect();
+                let resolves = |v: &Tgt| -> bool {
+                    let mut at = Some(v.clone());
+                    for _ in 0..6 {
+                        match at {
+                            Some(Tgt::Sym(t)) => at = c.model.get(&t).cloned(),
+                            Some(Tgt::Obj(_)) => return true,
+                            None => return false,
+                        }
+                    }
+                    false
+                };
+                // git prints the end of a symbolic chain in %(symref) (it recurses)
+                let chain_end = |v: &Tgt| -> Tgt {
+                    let mut cur = v.clone();
+                    for _ in 0..6 {
+                        match &cur {
+                            Tgt::Sym(t) => match c.model.get(t) {
+                                Some(n @ Tgt::Sym(_)) => cur = n.clone(),
+                                _ => break,
+                            },
+                            Tgt::Obj(_) => break,
+                        }
+                    }
+                    cur
+                };
+                let exp: Vec<(String, Tgt)> = expect_all.iter().filter(|(_, v)| resolves(v)).map(|(k, v)| (k.clone(), chain_end(v))).collect();
                 if got != exp {
                     let p = if want18 { "C18" } else { "C16" };
                     if want16 || want18 {
@@ -616,7 +641,7 @@ fn observe_step(c: &mut Ctx, store: &file::Store, git_dir: &Path, reflog: u8, st
                     }
                 }
                 if want16 {
-                    let head = rt::bypass(|| git(git_dir, &["symbolic-ref", "-q", "HEAD"])).ok().map(|s| s.trim().to_string());
+                    let head = rt::bypass(|| git(git_dir, &["symbolic-ref", "-q", "--no-recurse", "HEAD"])).ok().map(|s| s.trim().to_string());
                     let exp_head = match c.model.get("HEAD") {
                         Some(Tgt::Sym(t)) => Some(t.clone()),
                         _ => None,
@@ -816,8 +841,10 @@ fn history(w: Workload, prop: String, git_dir: PathBuf, out: std::sync::Arc<std:
                     Ok(_) => {
                         // update-ref follows symbolic refs
                         let mut n = name.clone();
-                        if let Some(Tgt::Sym(t)) = c.model.get(&n) {
-                            n = t.clone();
+                        for _ in 0..5 {
+                            if let Some(Tgt::Sym(t)) = c.model.get(&n) {
+                                n = t.clone();
+                            }
                         }
                         c.model.insert(n, Tgt::Obj(*obj));
                         c.rep.probe("foreign-update");
@@ -862,7 +889,7 @@ fn history(w: Workload, prop: String, git_dir: PathBuf, out: std::sync::Arc<std:
                 store = open_store(&git_dir, w.reflog);
                 c.rep.probe("store-reopened");
             }
-            Op::HoldLocks { paths, release_after_ms } => {
+            Op::HoldLocks { paths, release_after_ms, churn_ms } => {
                 for p in paths {
                     let lp = git_dir.join(p);
                     if let Some(parent) = lp.parent() {
@@ -874,13 +901,30 @@ fn history(w: Workload, prop: String, git_dir: PathBuf, out: std::sync::Arc<std:
                     }
                 }
                 c.rep.probe("foreign-locks-held");
-                if let Some(ms) = release_after_ms {
-                    let paths: Vec<PathBuf> = paths.iter().map(|p| git_dir.join(p)).collect();
-                    let ms = *ms;
+                if release_after_ms.is_some() || churn_ms.is_some() {
+                    let paths: Vec<PathBuf> = paths.iter().filter(|p| foreign.contains(*p)).map(|p| git_dir.join(p)).collect();
+                    let release = *release_after_ms;
+                    let churn = *churn_ms;
                     releaser = Some(std::thread::spawn(move || {
-                        std::thread::sleep(std::time::Duration::from_millis(ms));
-                        for p in paths {
-                            let _ = std::fs::remove_file(p);
+                        if let Some((period, total)) = churn {
+                            let t0 = std::time::Instant::now();
+                            while t0.elapsed() < std::time::Duration::from_millis(total) {
+                                std::thread::sleep(std::time::Duration::from_millis(period.max(1)));
+                                for p in &paths {
+                                    // another holder takes over: atomically replace the lock file (it never disappears)
+                                    let tmp = p.with_extension("lock.next");
+                                    fsx::without_faults(|| {
+                                        let _ = std::fs::write(&tmp, b"x");
+                                        let _ = std::fs::rename(&tmp, p);
+                                    });
+                                }
+                            }
+                        }
+                        if let Some(ms) = release {
+                            std::thread::sleep(std::time::Duration::from_millis(ms));
+                            for p in paths {
+                                let _ = std::fs::remove_file(p);
+                            }
                         }
                     }));
                 }
@@ -929,6 +973,10 @@ pub struct TxInfo {
 
 fn gen_tgt(r: &mut Rng, name: &str) -> Tgt {
     if SYM_SOURCES.contains(&name) && r.chance(450) {
+        // two-hop chains: HEAD -> refs/heads/sym -> <direct ref>; refs/heads/sym itself only points to direct refs
+        if name != "refs/heads/sym" && r.chance(250) {
+            return Tgt::Sym("refs/heads/sym".to_string());
+        }
         Tgt::Sym(r.pick(SYM_TARGETS).to_string())
     } else if name.starts_with("refs/tags/") && r.chance(400) {
         Tgt::Obj(6 + r.usize_below(2))
@@ -961,12 +1009,20 @@ fn gen_edit(r: &mut Rng, m: &Model, used: &mut BTreeSet<String>) -> Option<Ed> {
         let deref = r.chance(if SYM_SOURCES.contains(&name.as_str()) { 500 } else { 100 });
         // with deref on a symbolic ref the referent is edited too: keep one edit per name
         if deref {
-            if let Some(Tgt::Sym(t)) = cur {
-                if used.contains(t) {
-                    continue;
+            let mut chain = vec![];
+            let mut at = cur.cloned();
+            for _ in 0..5 {
+                if let Some(Tgt::Sym(t)) = at {
+                    at = m.get(&t).cloned();
+                    chain.push(t);
+                } else {
+                    break;
                 }
-                used.insert(t.clone());
             }
+            if chain.iter().any(|t| used.contains(t)) {
+                continue;
+            }
+            used.extend(chain);
         }
         used.insert(name.clone());
         let new = if delete { None } else { Some(gen_tgt(r, &name)) };
@@ -1031,7 +1087,7 @@ fn generate(seed: u64, tier: Tier, prop: &str) -> Workload {
                 }
                 3 => {
                     let src = r.pick(SYM_SOURCES).to_string();
-                    let target = r.pick(SYM_TARGETS).to_string();
+                    let target = if src != "refs/heads/sym" && r.chance(250) { "refs/heads/sym".to_string() } else { r.pick(SYM_TARGETS).to_string() };
                     model.insert(src.clone(), Tgt::Sym(target.clone()));
                     ops.push(Op::GitSymref { name: src, target });
                 }
@@ -1065,9 +1121,15 @@ fn generate(seed: u64, tier: Tier, prop: &str) -> Workload {
                     paths.push(format!("{}.lock", e.name));
                 }
                 if e.deref {
-                    if let Some(Tgt::Sym(t)) = model.get(&e.name) {
-                        if r.chance(700) {
-                            paths.push(format!("{t}.lock"));
+                    let mut at = model.get(&e.name).cloned();
+                    for _ in 0..5 {
+                        if let Some(Tgt::Sym(t)) = at {
+                            if r.chance(700) {
+                                paths.push(format!("{t}.lock"));
+                            }
+                            at = model.get(&t).cloned();
+                        } else {
+                            break;
                         }
                     }
                 }
@@ -1079,7 +1141,8 @@ fn generate(seed: u64, tier: Tier, prop: &str) -> Workload {
             paths.dedup();
             if !paths.is_empty() {
                 let release_after_ms = if r.chance(500) { Some(*r.pick(&[1u64, 3, 10, 50, 300, 1500])) } else { None };
-                ops.push(Op::HoldLocks { paths, release_after_ms });
+                let churn_ms = if backoff_ms.is_some() && r.chance(350) { Some((*r.pick(&[5u64, 20, 50]), *r.pick(&[3_000u64, 8_000]))) } else { None };
+                ops.push(Op::HoldLocks { paths, release_after_ms, churn_ms });
             }
         }
         if let Ok(eff) = model_tx(&model, &edits) {
@@ -1195,7 +1258,7 @@ impl Scenario for RefStore {
     fn cpu_limit_s(&self, p: &str) -> u64 {
         // C17 hunts endless loops (a normal run needs milliseconds); C20 copies the tree at every mutation
         match p {
-            "C17" => 3,
+            "C17" => 10,
             "C20" => 90,
             _ => 15,
         }
